@@ -59,6 +59,7 @@ theorem isGroupTable_of_B {T : Table} {N : Nat} (h : isGroupTableB T N = true) :
 section tableOf
 variable {α : Type} [BEq α] [LawfulBEq α]
 
+omit [LawfulBEq α] in
 theorem entry_tableOf (L : List α) (op : α → α → α) {i j : Nat} (hi : i < L.length) (hj : j < L.length) :
     entry (tableOf L op) i j = L.idxOf (op L[i] L[j]) := by
   simp [entry, tableOf, List.getD_eq_getElem?_getD, hi, hj]
